@@ -193,6 +193,31 @@ def TK.sync (s : TK) (o : Owner) (snap : Snapshot) : TK :=
   | none => s
   | some (t', em) => ⟨t', applyEmit s.K em, s.log ++ [(o, em)]⟩
 
+/-- what the two batch syscalls of one `syncOwner` call do (environment): both succeed, the update batch
+fails (atomically: nothing written), or the update batch succeeds and the delete batch fails. A batch that
+is not issued (no keys) cannot fail. -/
+inductive Outcome where
+  | ok | updFail | delFail
+deriving DecidableEq, Repr, Inhabited
+
+inductive SyncRes where
+  | done        -- both batches sent, snapshot applied
+  | rejected    -- empty owner key: nothing happened
+  | updFailed   -- "update domain_routing_map: …": returned before the delete batch and before applying
+  | delFailed   -- "delete domain_routing_map: …": update batch is in the table, snapshot NOT applied
+deriving DecidableEq, Repr, Inhabited
+
+/-- `syncOwner` with a non-nil map whose batch calls behave as `oc` says. The code sends the update batch,
+then the delete batch, and applies the owner snapshot only after both succeeded. -/
+def TK.syncO (s : TK) (o : Owner) (snap : Snapshot) (oc : Outcome) : TK × SyncRes :=
+  match syncOwner s.t o snap with
+  | none => (s, .rejected)
+  | some (t', em) =>
+    if oc = .updFail ∧ em.ups ≠ [] then (s, .updFailed)
+    else if oc = .delFail ∧ em.dels ≠ [] then
+      (⟨s.t, applyEmit s.K ⟨em.ups, []⟩, s.log ++ [(o, ⟨em.ups, []⟩)]⟩, .delFailed)
+    else (⟨t', applyEmit s.K em, s.log ++ [(o, em)]⟩, .done)
+
 /-! ## histories of `syncOwner` calls and what they denote (specification side) -/
 
 /-- the owner map after `syncOwner o s`: the owner's entry is replaced by `s`, or dropped when `s` has
@@ -207,6 +232,14 @@ def runSync (s : TK) (h : List (Owner × Snapshot)) : TK := h.foldl (fun s p => 
 key are rejected by the code and change nothing). -/
 def liveAfter (L : Owner → Option Snapshot) (h : List (Owner × Snapshot)) : Owner → Option Snapshot :=
   h.foldl (fun L p => if p.1 = "" then L else setOwner L p.1 p.2) L
+
+/-- a history of `syncOwner` calls with the behaviour of the batch syscalls of each; second component: the
+owner map denoted by the calls that completed. -/
+def runSyncO (s : TK) (L : Owner → Option Snapshot) (h : List (Owner × Snapshot × Outcome)) :
+    TK × (Owner → Option Snapshot) :=
+  h.foldl (fun st p =>
+    let r := st.1.syncO p.1 p.2.1 p.2.2
+    (r.1, if r.2 = .done then setOwner st.2 p.1 p.2.1 else st.2)) (s, L)
 
 /-! ## `DnsCache` answers → snapshot -/
 
@@ -245,25 +278,32 @@ structure CacheView where
 deriving Repr, Inhabited
 
 inductive CoreErr where
-  | ok | bitmapLen | emptyOwner
+  | ok | bitmapLen | emptyOwner | updFailed | delFailed
 deriving DecidableEq, Repr
 
+def CoreErr.ofRes : SyncRes → CoreErr
+  | .done => .ok
+  | .rejected => .emptyOwner
+  | .updFailed => .updFailed
+  | .delFailed => .delFailed
+
 /-- `BatchUpdateDomainRouting(cache)` (`none` = nil cache). -/
-def batchUpdate (s : TK) (c : Option CacheView) : TK × CoreErr :=
+def batchUpdate (s : TK) (c : Option CacheView) (oc : Outcome := .ok) : TK × CoreErr :=
   match c with
   | none => (s, .ok)
   | some c =>
     if c.bmLen ≠ bitmapWords then (s, .bitmapLen)
-    else if c.owner = "" then (s, .emptyOwner)
-    else (s.sync c.owner ⟨c.bitmap, ansIps c.ans⟩, .ok)
+    else
+      let r := s.syncO c.owner ⟨c.bitmap, ansIps c.ans⟩ oc
+      (r.1, CoreErr.ofRes r.2)
 
 /-- `BatchRemoveDomainRouting(cache)` -/
-def batchRemove (s : TK) (c : Option CacheView) : TK × CoreErr :=
+def batchRemove (s : TK) (c : Option CacheView) (oc : Outcome := .ok) : TK × CoreErr :=
   match c with
   | none => (s, .ok)
   | some c =>
-    if c.owner = "" then (s, .emptyOwner)
-    else (s.sync c.owner Snapshot.empty, .ok)
+    let r := s.syncO c.owner Snapshot.empty oc
+    (r.1, CoreErr.ofRes r.2)
 
 /-! ## the DNS cache layer -/
 
@@ -311,15 +351,24 @@ def CState.init (cfg : Cfg) : CState := ⟨cfg.normalize, 0, 1, [], [], TK.empty
 def sec : Nat := 1000000000
 
 inductive COp where
-  | put (key : String) (ttl : Nat) (fixedTtl : Option Nat) (bitmap : Bitmap) (ans : List Ans)
+  /-- `UpdateDnsCacheTtlWithKey(key, …)` / `UpdateDnsCacheTtl(…)` (`key = ""`: the key is derived from the
+  canonical name and the query type). -/
+  | put (key fqdn : String) (qtype ttl : Nat) (fixedTtl : Option Nat) (bitmap : Bitmap) (ans : List Ans)
   | del (key : String)
   | fam (base : String) (order : List String)
-  | look (key : String) (ignoreFixed : Bool)
+  /-- `LookupDnsRespCache`: what it did is *observed* (entry evicted as expired / refresh task queued);
+  the expiry and refresh policies are outside the property, see `predictLook`. -/
+  | look (key : String) (evicted queued : Bool)
   | jan (order : List String)
   | sleep (ns : Nat)
   | work
   | touch (key : String)
-  | hot (key : String) (packed : Bool)
+  /-- `LookupDnsRespCache_` (DNS hot path), outcome observed likewise. -/
+  | hot (key : String) (evicted queued : Bool)
+  /-- reload: new generation (fresh tracker, `clearReloadDomainRoutingMap`), `CloneCacheForReload` +
+  `RestoreReloadCache`; `assign` = the observed restore order with the bitmap the new generation's domain
+  matcher gives each entry. -/
+  | reload (assign : List (String × Bitmap))
 deriving Repr, Inhabited
 
 /-- `dnsCacheBaseKey` -/
@@ -335,16 +384,23 @@ def CState.evict (σ : CState) (key : String) : CState :=
   | none => σ
   | some _ => { σ with cache := alErase key σ.cache, tk := σ.tk.sync key Snapshot.empty }
 
-/-- `NeedsBpfUpdate` for an entry created by `__updateDnsCacheDeadline` (its data hash equals the
-marked one, so only the 60 s maximum interval triggers). -/
+/-- `NeedsBpfUpdate` for an entry created by `__updateDnsCacheDeadline` / restored on reload (its data hash
+equals the marked one, so only the 60 s maximum interval triggers). Bookkeeping prediction only. -/
 def needsUpdate (e : Entry) (now : Nat) : Bool := decide (now - e.lastSync ≥ 60 * sec)
 
-/-- `triggerBpfUpdateIfNeeded` -/
-def CState.trigger (σ : CState) (key : String) (e : Entry) : CState :=
-  if needsUpdate e σ.now then
+/-- `triggerBpfUpdateIfNeeded` when it does queue a task: the CAS stamps `lastRouteSyncNano`, the task
+points at the cached object. -/
+def CState.queueRefresh (σ : CState) (key : String) : CState :=
+  match alLookup key σ.cache with
+  | none => σ
+  | some e =>
     { σ with cache := alInsert key { e with lastSync := σ.now } σ.cache,
              pending := σ.pending ++ [⟨e.id, key, e.snap, σ.now⟩] }
-  else σ
+
+/-- `dnsCache.Store(key, entry)` of a fresh object + `cacheAccessCallback(entry)` (→ `BatchUpdateDomainRouting`). -/
+def CState.store (σ : CState) (key : String) (e : Entry) : CState :=
+  { σ with nextId := σ.nextId + 1, cache := alInsert key { e with id := σ.nextId } σ.cache,
+           tk := σ.tk.sync key e.snap }
 
 /-- `processBpfUpdateTask` for a task taken from the queue (code after the fix "a queued domain-routing
 refresh is dropped when its DNS cache entry was replaced or removed meanwhile"): the task is applied only
@@ -367,24 +423,24 @@ def CState.applyTaskUnguarded (σ : CState) (t : Task) : CState :=
     | none => σ.cache
   { σ with cache := cache', tk := σ.tk.sync t.key t.snap }
 
+/-- `c.cacheKey(fqdn, qtype)` for an empty `cacheKey` argument. -/
+def effKey (key fqdn : String) (qtype : Nat) : String := if key = "" then fqdn ++ toString qtype else key
+
 def cstep (σ : CState) : COp → CState
-  | .put key ttl fixedTtl bitmap ans =>
-    if key = "" then σ else
+  | .put key fqdn qtype ttl fixedTtl bitmap ans =>
+    let k := effKey key fqdn qtype
+    if k = "" then σ else   -- cannot happen: `CanonicalName` never returns the empty string
     let dl := match fixedTtl with
       | some f => σ.now + f * sec
       | none => σ.now + ttl * sec
-    let e : Entry := ⟨σ.nextId, bitmap, ans, dl, σ.now + ttl * sec, σ.now, σ.now⟩  -- a stored answer counts as used now
-    { σ with nextId := σ.nextId + 1, cache := alInsert key e σ.cache, tk := σ.tk.sync key e.snap }
+    -- a stored answer counts as used now (lastAccess)
+    σ.store k ⟨0, bitmap, ans, dl, σ.now + ttl * sec, σ.now, σ.now⟩
   | .del key => σ.evict key
   | .fam base order =>
     if base = "" then σ else
     order.foldl (fun σ k => if baseKey k = base then σ.evict k else σ) σ
-  | .look key ignoreFixed =>
-    match alLookup key σ.cache with
-    | none => σ
-    | some e =>
-      let dl := if ignoreFixed then e.origDeadline else e.deadline
-      if dl ≤ σ.now then σ.evict key else σ.trigger key e
+  | .look key evicted queued =>
+    if evicted then σ.evict key else if queued then σ.queueRefresh key else σ
   | .jan order => order.foldl (fun σ k => σ.evict k) σ
   | .sleep ns => { σ with now := σ.now + ns }
   | .work =>
@@ -395,18 +451,19 @@ def cstep (σ : CState) : COp → CState
     match alLookup key σ.cache with
     | none => σ
     | some e => { σ with cache := alInsert key { e with lastAccess := σ.now } σ.cache }
-  | .hot key packed =>
-    -- `LookupDnsRespCache_(msg, key, false)`, the lookup on the DNS hot path. `packed` = a pre-packed
-    -- response is available for the entry (C08's subject; told to the model by the harness).
+  | .hot key evicted queued =>
     match alLookup key σ.cache with
     | none => σ
     | some e =>
-      let e1 : Entry := { e with lastAccess := σ.now }
-      let σ1 : CState := { σ with cache := alInsert key e1 σ.cache }
-      if σ.now < e.deadline then (if packed then σ1.trigger key e1 else σ1)
-      else if σ.cfg.optEnabled && packed &&
-          (σ.cfg.optTtl == 0 || decide (σ.now ≤ e.deadline + σ.cfg.optTtl * sec)) then σ1   -- stale answer served
-      else σ1.evict key
+      let σ1 : CState := { σ with cache := alInsert key { e with lastAccess := σ.now } σ.cache }
+      if evicted then σ1.evict key else if queued then σ1.queueRefresh key else σ1
+  | .reload assign =>
+    let old := σ.cache
+    let order := assign ++ (old.filter fun p => (alLookup p.1 assign).isNone).map (fun p => (p.1, p.2.bitmap))
+    order.foldl (fun σ p =>
+      match alLookup p.1 old with
+      | some e => if p.1 = "" then σ else σ.store p.1 { e with bitmap := p.2, lastSync := σ.now }
+      | none => σ) { σ with cache := [], tk := ⟨Tracker.empty, [], σ.tk.log⟩ }
 
 def crun (σ : CState) (ops : List COp) : CState := ops.foldl cstep σ
 
@@ -450,6 +507,31 @@ def janLegal (σ : CState) (order : List String) : Bool :=
   let survivors := remaining.filter fun p => !rest.contains p.1
   isPerm first tv && rest.length == need && victims.length == need &&
     victims.all (fun v => survivors.all fun s => decide (v.2.lastAccess ≤ s.2.lastAccess))
+
+/-- `RestoreReloadCache`: every cached key is restored exactly once. -/
+def reloadLegal (σ : CState) (assign : List (String × Bitmap)) : Bool :=
+  isPerm (assign.map (·.1)) (σ.cache.map (·.1))
+
+/-! ## bookkeeping predictions (expiry / refresh policy; outside the property, reported as drift only) -/
+
+/-- what `LookupDnsRespCache(key, ignoreFixed)` is expected to do: (evicted, queued). -/
+def predictLook (σ : CState) (key : String) (ignoreFixed : Bool) : Bool × Bool :=
+  match alLookup key σ.cache with
+  | none => (false, false)
+  | some e =>
+    let dl := if ignoreFixed then e.origDeadline else e.deadline
+    if dl ≤ σ.now then (true, false) else (false, needsUpdate e σ.now)
+
+/-- what `LookupDnsRespCache_(msg, key, false)` is expected to do, given whether a pre-packed response is
+available (C08's subject): (evicted, queued). -/
+def predictHot (σ : CState) (key : String) (packed : Bool) : Bool × Bool :=
+  match alLookup key σ.cache with
+  | none => (false, false)
+  | some e =>
+    if σ.now < e.deadline then (false, packed && needsUpdate e σ.now)
+    else if σ.cfg.optEnabled && packed &&
+        (σ.cfg.optTtl == 0 || decide (σ.now ≤ e.deadline + σ.cfg.optTtl * sec)) then (false, false)
+    else (true, false)
 
 /-! ## the executable specification (what the property says the table must hold) -/
 
